@@ -56,6 +56,9 @@ type cloneCase struct {
 	Sched   []cloneEv `json:"sched"`
 	Scale   int       `json:"scale"`
 	StallMs int       `json:"stallMs"`
+	// SameFilter: every handler of the mux is registered under the identical filter string (the model knows handlers,
+	// not filters: the demands are the same)
+	SameFilter bool `json:"sameFilter,omitempty"`
 }
 
 type cloneView struct {
@@ -248,7 +251,11 @@ func runCloneCase(raw json.RawMessage) interface{} {
 			if c.Cs.Hs[i-1].A {
 				h = &mqtt.ServeAsync{Handler: hs[i]}
 			}
-			if err := mux.Handle(cloneFilters[i-1], h); err != nil {
+			f := cloneFilters[i-1]
+			if c.SameFilter {
+				f = "t/+"
+			}
+			if err := mux.Handle(f, h); err != nil {
 				return nil, err
 			}
 		}
